@@ -757,10 +757,10 @@ def _coerce_to_pattern_ast_Call(
     func = ast.func
     func_cls = func.__class__
 
-    if func_cls is Attribute:
-        if is_FST:
-            func.f._unparenthesize_grouping(False)  # cannot have pars
+    if is_FST and func_cls in (Attribute, Name):
+        func.f._unparenthesize_grouping(False)  # cannot have pars
 
+    if func_cls is Attribute:
         res = _coerce_to_pattern_ast_Attribute(func, is_FST, options, parse_params)  # we call this just to validate and remove parentheses if present
 
         if isinstance(res, str):
